@@ -2,6 +2,7 @@ import Iec.Lemmas.Srv104
 import Iec.Lemmas.HpQueue
 import Iec.Lemmas.MsgQueueOrder
 import Iec.Props.C06
+import Iec.Gen.Consts104
 /-
 C13 — Event ordering and response priority on a CS104 server connection.
 
@@ -178,5 +179,12 @@ theorem resume_with_oldest_unconfirmed (q : MsgQueue) (up low : List MEntry) (h 
     show some ((rearm x).2.id, (rearm x).1, (rearm x).2.data) = _
     simp only [rearm, rearmE]
     split <;> rfl
+
+/-- the reply ring of the model has the entry header (`sizeof(uint16_t)`) and the size `HighPriorityASDUQueue_create`
+computes in the compiled source (translator tie, regenerated on every run) -/
+theorem reply_ring_geometry_matches_source :
+    (HpQueue.create 1).size = Iec.Gen.hpSize1 ∧ (HpQueue.create 5).size = Iec.Gen.hpSize5 ∧
+    Iec.Gen.hpSize1 = Iec.Gen.hpEntryHeader + 256 := by
+  decide
 
 end Iec.Props.C13
